@@ -63,7 +63,7 @@ def gen_commands(rnd, n_per):
         for c in counts:
             out.append({"framing": framing, "kind": "read", "comm": rnd.choice((0xF7, 0x7F, 0, 255, rnd.randrange(256))),
                         "reg": rnd.choice(regs + [rnd.randrange(65536)]), "count": c})
-        for v in [0, 1, -1, 32767, -32768, 255, 256, -256] + [rnd.randrange(-32768, 32768) for _ in range(n_per)]:
+        for v in [0, 1, -1, 32767, -32768, 255, 256, -256, 2, 5, 62, 125] + [rnd.randrange(-32768, 32768) for _ in range(n_per)]:
             out.append({"framing": framing, "kind": "write", "comm": rnd.choice((0xF7, 0x7F, rnd.randrange(256))),
                         "reg": rnd.choice(regs + [rnd.randrange(65536)]), "value": v})
         for nb in [2, 4, 8, 12, 246] + [2 * rnd.randrange(1, 124) for _ in range(max(2, n_per // 2))]:
@@ -197,6 +197,25 @@ def mutations(base, other, rnd, n_havoc, cmd_desc=None):
                     continue
                 d2["count"], d2["data"] = v2, bytes(2 * v2)
             yield "echo-of-another-write", (rc.rtu_response(d2, None) if cmd_desc["framing"] == "rtu" else rc.tcp_response(d2, None, txid=7))
+    # a well-formed answer of ANOTHER function whose echoed fields coincide with the request's arguments
+    if cmd_desc is not None and cmd_desc["framing"] in ("rtu", "tcp"):
+        k_, reg_ = cmd_desc["kind"], cmd_desc["reg"]
+        mk = (lambda d_, pl=None: rc.rtu_response(d_, pl)) if cmd_desc["framing"] == "rtu" else (lambda d_, pl=None: rc.tcp_response(d_, pl, txid=9))
+        base_ = {"framing": cmd_desc["framing"], "comm": cmd_desc["comm"], "reg": reg_}
+        if k_ == "multi":
+            yield "cross-kind-coincidence", mk(dict(base_, kind="write", value=cmd_desc["count"]))
+        elif k_ == "write":
+            v_ = cmd_desc["value"]
+            yield "cross-kind-coincidence", mk(dict(base_, kind="multi", count=v_ & 0x7F or 1, data=bytes(2 * (v_ & 0x7F or 1))))
+            if 1 <= v_ <= 125:
+                yield "cross-kind-coincidence", mk(dict(base_, kind="read", count=v_), bytes(2 * v_))
+            if 1 <= v_ <= 123:
+                yield "cross-kind-coincidence", mk(dict(base_, kind="multi", count=v_, data=bytes(2 * v_)))
+        else:
+            c_ = cmd_desc["count"]
+            yield "cross-kind-coincidence", mk(dict(base_, kind="write", value=c_))
+            if c_ <= 123:
+                yield "cross-kind-coincidence", mk(dict(base_, kind="multi", count=c_, data=bytes(2 * c_)))
     # well-formed exception answers with known and unknown codes (must be refused or reported as rejected - never accepted, and
     # the validator itself must not fail on them)
     if cmd_desc is not None and cmd_desc["framing"] in ("rtu", "tcp"):
